@@ -375,8 +375,10 @@ class Event:
         with self._cond:
             if self._flag.acquire(False):
                 self._flag.release()
-            else:
-                self._cond.wait(timeout)
+            elif self._cond.wait(timeout):
+                # woken by set(): the event was set before the deadline,
+                # even if a clear() wins the race for the lock afterwards.
+                return True
 
             if self._flag.acquire(False):
                 self._flag.release()
